@@ -315,7 +315,7 @@ def build(clean: bool = False, timeout: int = 3000):
                 if not (THEORIES / f'{f}.v').exists():
                     (THEORIES / f'{f}.v').write_text('(* the translator failed closed *) Definition translator_failed_closed : True := 0.\n')
         for tool, outs in (('translate_ts_summary.py', ('TSGenSummary', 'TSGenStationary')), ('translate_ts_extend.py', ('TSGenMinimal', 'TSGenExtend')),
-                           ('translate_mutators.py', ('MutGenRollback',))):
+                           ('translate_mutators.py', ('MutGenRollback',)), ('translate_add_edge.py', ('MutGenAdd',))):
             tt = VERIF / 'tools' / tool      # time_series_causal_graph.py algorithms -> TSGen*.v (each tool writes its own non-compiling stub per group)
             if tt.exists():
                 r = subprocess.run([sys.executable, str(tt), str(REPO), str(THEORIES)], capture_output=True, text=True)
